@@ -35,6 +35,7 @@ var t1Bodies = []string{
 	// code blocks
 	`{ p.N++ }`, `'a' { p.N++ }`, `{ p.N++ } 'a'`, `{ if true { p.N++ } }`, `&{ true } 'a'`, `!{ p.N++ } 'a'`, `&{ p.N == 0 }`, `<'a'> { _ = text }`,
 	`'a' { p.N++ } / 'b' { p.N-- }`, `({ p.N++ })`, `{}`,
+	`'a' { if p.N == '"' { p.N++ } else { p.N--; _ = "x" } }`, "'a' { _ = `\"`; if true { p.N++ } }", `'a' { if true { p.N++ } /* " */ } 'b' { /* " */ p.N-- }`,
 }
 
 var t1Frames = []struct{ name, pre, post string }{
